@@ -15,7 +15,10 @@ META = {
         'been removed, so nothing that depends on an argument is frozen; '
         ' (freeze) what is frozen afterwards is taken from that pre-evaluation '
         'and only for nodes without a default; the compiled function receives '
-        'the caller\'s input and output lists unchanged; (flag) in '
+        'the caller\'s input and output lists unchanged; (self) every '
+        'sub-dispatcher compile() cuts out of the model is installed under '
+        'its own sh.SELF before it is run or packaged, so the range '
+        'assemblers never read the model\'s last calculation; (flag) in '
         'AstBuilder.compile the COMPILING flag is set before the '
         'pre-evaluation and cleared in the solution before it is turned into '
         'defaults, and the output node is the last builder item; (order) the '
@@ -48,6 +51,11 @@ def _model_compile(ctx):
     cands = [m for m in M.methods.values() if any(
         isinstance(n, ast.Call) and call_name(n) == 'shrink_dsp'
         for n in own_nodes(m))]
+    if not cands and 'compile' in M.methods and len(
+            M.methods['compile'].params) >= 3:
+        # nothing calls shrink_dsp any more: the rules judge compile() itself
+        # (C08.unset reports the missing cut at the inputs)
+        return M.methods['compile']
     if len(cands) != 1:
         raise AnalysisError('ExcelModel: expected exactly one method calling '
                             'shrink_dsp, found %d' % len(cands))
@@ -72,33 +80,93 @@ def rule_unset(ctx):
     cfg = CFG(f)
     dom = cfg.dominators()
     inputs_p = f.params[1]
-    # the set of input nodes
-    setvars = {}
+    # the set the defaults are filtered against: `{k: v for k, v in
+    # <...>.default_values.items() if k not in S}` names it; every definition
+    # and in-place extension of S is then examined
+    sv, inline_set = None, None
     for n in own_nodes(f):
-        if isinstance(n, ast.Assign) and isinstance(n.value, ast.Call) and \
-                call_name(n.value) == 'set' and n.value.args and norm_src(
-                n.value.args[0]) == inputs_p and isinstance(
-                n.targets[0], ast.Name):
-            setvars[n.targets[0].id] = n
+        if isinstance(n, ast.Assign) and any(
+                isinstance(t, ast.Attribute) and t.attr == 'default_values'
+                for t in n.targets) and isinstance(n.value, ast.DictComp):
+            for g in n.value.generators:
+                for c in g.ifs:
+                    if isinstance(c, ast.Compare) and len(
+                            c.ops) == 1 and isinstance(
+                            c.ops[0], ast.NotIn):
+                        if isinstance(c.comparators[0], ast.Name):
+                            sv = c.comparators[0].id
+                        else:
+                            # the set written in place (single-use local)
+                            sv, inline_set = '<set>', (n, c.comparators[0])
+    if sv is None:
+        # no such filter: fall back on the variable built as set(inputs)
+        for n in own_nodes(f):
+            if isinstance(n, ast.Assign) and isinstance(
+                    n.targets[0], ast.Name) and any(
+                    isinstance(c, ast.Call) and call_name(c) == 'set' and
+                    c.args and norm_src(c.args[0]) == inputs_p
+                    for c in ast.walk(n.value)):
+                sv = n.targets[0].id
     rr.instances += 1
-    if not setvars:
+    if sv is None:
         rr.fail(key_of(f, 'no input set'),
                 'ExcelModel.compile no longer collects the set of input nodes',
                 file=EXCEL, function=f.qualname, line=f.lineno)
         return rr
-    sv = list(setvars)[0]
-    rr.ok('input node set `%s = set(%s)`' % (sv, inputs_p), EXCEL)
-    # closure with inverse links
+    # (statement, expression) pairs that put elements into S
+    feeds = []
+    if inline_set is not None:
+        feeds.append((inline_set[0], inline_set[1], None))
+    for n in own_nodes(f):
+        if isinstance(n, ast.Assign) and any(
+                isinstance(t, ast.Name) and t.id == sv for t in n.targets):
+            feeds.append((n, n.value, None))
+        elif isinstance(n, ast.AugAssign) and isinstance(
+                n.target, ast.Name) and n.target.id == sv:
+            feeds.append((n, n.value, None))
+    for n in own_nodes(f):
+        if isinstance(n, (ast.For, ast.Expr)):
+            for c in ast.walk(n):
+                if isinstance(c, ast.Call) and isinstance(
+                        c.func, ast.Attribute) and c.func.attr in (
+                        'update', 'add', 'union') and norm_src(
+                        c.func.value) == sv and isinstance(n, ast.For):
+                    feeds.append((n, c, n.iter))
+            if isinstance(n, ast.Expr) and isinstance(
+                    n.value, ast.Call) and isinstance(
+                    n.value.func, ast.Attribute) and n.value.func.attr in (
+                    'update', 'add') and norm_src(n.value.func.value) == sv:
+                feeds.append((n, n.value, None))
+
+    def mentions_inputs(e, it=None):
+        return any(isinstance(x, ast.Name) and x.id == inputs_p
+                   for y in (e, it) if y is not None for x in ast.walk(y))
+
+    if any(mentions_inputs(e) for _n, e, _it in feeds if not any(
+            isinstance(x, ast.Constant) and isinstance(x.value, str) and
+            'inv' in x.value for x in ast.walk(e)) or True):
+        pass
+    has_inputs = any(
+        isinstance(c, ast.Call) and call_name(c) == 'set' and c.args and
+        norm_src(c.args[0]) == inputs_p or
+        isinstance(c, ast.Name) and c.id == inputs_p
+        for _n, e, _it in feeds for c in ast.walk(e))
+    if not has_inputs:
+        rr.fail(key_of(f, 'no input set'),
+                'ExcelModel.compile no longer puts the input nodes into the '
+                'set `%s` whose defaults are removed' % sv,
+                file=EXCEL, function=f.qualname, line=f.lineno)
+        return rr
+    rr.ok('input node set `%s` is built from `%s`' % (sv, inputs_p), EXCEL)
+    # closure with inverse links: some feed of S reads node['inv-data'] for
+    # the inputs (in a loop over them or a comprehension / generator)
     rr.instances += 1
     clos = None
-    for n in own_nodes(f):
-        if isinstance(n, ast.For) and norm_src(n.iter) == inputs_p:
-            for c in ast.walk(n):
-                if isinstance(c, ast.Call) and call_name(c) == 'update' and \
-                        norm_src(c.func.value) == sv and any(
-                        isinstance(x, ast.Constant) and isinstance(x.value, str)
-                        and 'inv' in x.value for x in ast.walk(c)):
-                    clos = n
+    for n, e, it in feeds:
+        inv = any(isinstance(x, ast.Constant) and isinstance(x.value, str)
+                  and 'inv' in x.value for x in ast.walk(e))
+        if inv and mentions_inputs(e, it):
+            clos = n
     if clos is None:
         rr.fail(key_of(f, 'inverse closure missing'),
                 'ExcelModel.compile no longer adds the inverse links '
@@ -117,7 +185,9 @@ def rule_unset(ctx):
                 isinstance(t, ast.Attribute) and t.attr == 'default_values'
                 for t in n.targets) and isinstance(n.value, ast.DictComp):
             conds = [norm_src(c) for g in n.value.generators for c in g.ifs]
-            if any(c.endswith('not in %s' % sv) for c in conds) and \
+            if any(c.endswith('not in %s' % sv) or (
+                    inline_set is not None and n is inline_set[0])
+                   for c in conds) and \
                     'default_values.items()' in norm_src(
                         n.value.generators[0].iter):
                 filt = n
@@ -125,6 +195,24 @@ def rule_unset(ctx):
     shr = [n for n in own_nodes(f) if isinstance(n, ast.Assign) and isinstance(
         n.value, ast.Call) and call_name(n.value) == 'shrink_dsp']
     if not shr:
+        # the sub-dispatcher is built some other way: if that construction
+        # does not even mention the inputs, the model is not cut at them
+        other = [n for n in own_nodes(f) if isinstance(n, ast.Assign) and
+                 isinstance(n.value, ast.Call) and call_name(n.value) in (
+                     'get_sub_dsp_from_workflow', 'get_sub_dsp')]
+        if other and not any(
+                isinstance(x, ast.Name) and x.id == inputs_p
+                for x in ast.walk(other[0].value)):
+            rr.instances += 1
+            rr.fail(key_of(f, 'shrink arguments'),
+                    '%s builds the dispatcher it pre-evaluates with `%s`, '
+                    'which does not take the caller\'s inputs: the formulas '
+                    'that produce an input cell stay in the graph, are '
+                    'pre-evaluated from the stored constants and folded, so '
+                    'the compiled function ignores that argument' % (
+                        f.qualname, norm_src(other[0].value)[:70]),
+                    file=EXCEL, function=f.qualname, line=other[0].lineno)
+            return rr
         raise AnalysisError('ExcelModel.compile: shrink_dsp call not found')
     dvar = shr[0].targets[0].id
     evals = [n for n in own_nodes(f) if isinstance(n, ast.Assign) and isinstance(
@@ -168,6 +256,165 @@ def rule_unset(ctx):
         rr.fail(key_of(f, 'shrink arguments'),
                 'shrink_dsp is not called with the caller\'s inputs/outputs',
                 file=EXCEL, function=f.qualname, line=sc.lineno)
+    return rr
+
+
+def rule_self(ctx, prop='C08', rule='C08.self'):
+    """Range assemblers read the cells a range has but the model lacks from
+    `<SELF>.solution`, SELF being the dispatcher installed under sh.SELF.  A
+    sub-dispatcher cut out of the model inherits the model's dispatcher
+    there: evaluated or packaged as a function it would read what the model
+    calculated last.  Every sub-dispatcher that ExcelModel.compile builds must
+    be re-bound to itself before it is run or handed to the compiled
+    function."""
+    rr = RuleResult(prop, rule, 'MPT',
+                    'sub-dispatchers of compile() read absent cells from '
+                    'themselves, not from the model\'s last calculation',
+                    floor=1)
+    p = ctx.project
+    # premise: somebody reads `.solution` of the SELF input
+    readers = []
+    for g in p.module('formulas/cell.py').all_funcs:
+        uses_self = any(ctx.cg.resolve_name_expr(g, n) == (
+            'ext', 'schedula.SELF') for n in own_nodes(g)
+            if isinstance(n, ast.Attribute) and n.attr == 'SELF')
+        reads = [n for n in own_nodes(g) if isinstance(n, ast.Attribute)
+                 and n.attr == 'solution' and isinstance(n.ctx, ast.Load)]
+        if uses_self and reads:
+            readers.append((g, reads[0]))
+    if not readers:
+        rr.instances = 1
+        rr.ok('no function reads the solution of the dispatcher installed '
+              'under sh.SELF', 'formulas/cell.py', nontrivial=False)
+        return rr
+    f = _model_compile(ctx)
+    cfg = CFG(f)
+    dom = cfg.dominators()
+
+    def is_self_tok(g, e):
+        return isinstance(e, (ast.Name, ast.Attribute)) and \
+            ctx.cg.resolve_name_expr(g, e) == ('ext', 'schedula.SELF')
+
+    def rebinds(g, st, var):
+        """Does statement st of g install `var` under sh.SELF of var?"""
+        for n in ast.walk(st):
+            # var.default_values[sh.SELF] = <... var ...>
+            if isinstance(n, ast.Assign) and any(
+                    isinstance(t, ast.Subscript) and is_self_tok(g, t.slice)
+                    and norm_src(t.value).startswith(var + '.')
+                    for t in n.targets) and any(
+                    isinstance(x, ast.Name) and x.id == var
+                    for x in ast.walk(n.value)):
+                return True
+            # var.set_default_value(sh.SELF, var, ...) / var.add_data(sh.SELF..)
+            if isinstance(n, ast.Call) and isinstance(
+                    n.func, ast.Attribute) and n.func.attr in (
+                    'set_default_value', 'add_data') and norm_src(
+                    n.func.value) == var and n.args and is_self_tok(
+                    g, n.args[0]):
+                return True
+            # helper(var) that does one of the above on its parameter
+            if isinstance(n, ast.Call) and any(
+                    isinstance(a, ast.Name) and a.id == var for a in n.args):
+                for e in ctx.cg._resolve_callee(g, n.func, n, 'call'):
+                    if e.is_ext or e.precision != 'exact':
+                        continue
+                    h = e.dst
+                    hp = h.params[1:] if h.cls is not None else h.params
+                    for i, a in enumerate(n.args):
+                        if isinstance(a, ast.Name) and a.id == var and \
+                                i < len(hp) and any(
+                                rebinds(h, s2, hp[i]) for s2 in h.node.body):
+                            return True
+        return False
+
+    subs = [n for n in own_nodes(f) if isinstance(n, ast.Assign) and len(
+        n.targets) == 1 and isinstance(n.targets[0], ast.Name) and isinstance(
+        n.value, ast.Call) and call_name(n.value) in (
+        'shrink_dsp', 'get_sub_dsp_from_workflow', 'get_sub_dsp')]
+    if not subs:
+        raise AnalysisError('C08.self: no sub-dispatcher built in %s'
+                            % f.qualname)
+    stmts = [n for n in own_nodes(f) if isinstance(n, ast.stmt)]
+    for sub in subs:
+        var = sub.targets[0].id
+        rr.instances += 1
+        sn = cfg.node_of(sub)
+        # uses of this definition: evaluation `var(...)`, `dsp=var`, return
+        uses = []
+        later_defs = [s2 for s2 in subs if s2 is not sub and
+                      s2.targets[0].id == var and s2.lineno > sub.lineno]
+        limit = min([s2.lineno for s2 in later_defs] or [10 ** 9])
+        for st in stmts:
+            if st is sub or st.lineno <= sub.lineno or st.lineno > limit:
+                continue
+            for n in ast.walk(st):
+                if isinstance(n, ast.Call) and (
+                        isinstance(n.func, ast.Name) and n.func.id == var or
+                        any(k.arg == 'dsp' and isinstance(k.value, ast.Name)
+                            and k.value.id == var for k in n.keywords)):
+                    if st.lineno == limit and isinstance(
+                            n.func, ast.Attribute) and norm_src(
+                            n.func.value) == var:
+                        continue
+                    uses.append(st)
+        def nodeof(st):
+            return cfg.node_of(st.test if isinstance(st, ast.If) else st)
+
+        def guarded_rebind(st):
+            # `if sh.SELF in var.default_values: <rebind>`: nothing to re-bind
+            # when the sub-dispatcher has no SELF input
+            return isinstance(st, ast.If) and isinstance(
+                st.test, ast.Compare) and len(st.test.ops) == 1 and \
+                isinstance(st.test.ops[0], ast.In) and is_self_tok(
+                    f, st.test.left) and norm_src(
+                    st.test.comparators[0]).startswith(var + '.') and any(
+                    rebinds(f, s2, var) for s2 in st.body)
+
+        rb = [st for st in stmts if sub.lineno < st.lineno <= limit and (
+            guarded_rebind(st) or not isinstance(st, (
+                ast.If, ast.For, ast.While, ast.Try, ast.With)) and
+            rebinds(f, st, var)) and nodeof(st) is not None]
+        ok = bool(uses) and all(any(
+            cfg.dominates(nodeof(r_), nodeof(u), dom)
+            for r_ in rb) for u in uses if nodeof(u) is not None)
+        if not uses:
+            rr.ok('%s: sub-dispatcher `%s` (line %d) is not run before it is '
+                  'replaced' % (f.qualname, var, sub.lineno), EXCEL,
+                  nontrivial=False)
+        elif ok:
+            rr.ok('%s: the sub-dispatcher built by %s is installed under its '
+                  'own sh.SELF before it is run / packaged' % (
+                      f.qualname, call_name(sub.value)),
+                  '%s:%d' % (EXCEL, sub.lineno))
+        else:
+            g, rd = readers[0]
+            # a write *into* the inherited record (`...[sh.SELF]['value'] =
+            # dsp`) is not a re-binding: the record is shared with the model
+            inplace = [n for g2 in [f] + [e.dst for e in ctx.cg.out(f)
+                                          if not e.is_ext and
+                                          e.precision == 'exact']
+                       for n in own_nodes(g2) if isinstance(n, ast.Assign)
+                       and any(isinstance(t, ast.Subscript) and isinstance(
+                           t.value, ast.Subscript) and is_self_tok(
+                           g2, t.value.slice) for t in n.targets)]
+            if inplace:
+                rr.note('`%s` writes into the default record inherited from '
+                        'the model instead of replacing it: the model\'s own '
+                        'sh.SELF is redirected to the sub-dispatcher' %
+                        norm_src(inplace[0])[:70])
+            rr.fail(key_of(f, 'sub-dispatcher of %s keeps the model under '
+                              'sh.SELF' % call_name(sub.value)),
+                    '%s runs or packages the sub-dispatcher built by %s '
+                    '(line %d) while its sh.SELF default is still the '
+                    'model\'s dispatcher: %s reads `%s` from it, i.e. the '
+                    'cells a range lacks are taken from whatever the model '
+                    'calculated last, so a compiled function (and the '
+                    'constants folded into it) changes with later '
+                    'model.calculate() calls' % (
+                        f.qualname, call_name(sub.value), sub.lineno,
+                        g.qualname, norm_src(rd)), file=EXCEL,
+                    function=f.qualname, line=sub.lineno)
     return rr
 
 
@@ -394,5 +641,6 @@ def run(ctx):
     from .c07 import rule_nomut
     from .modelstate import rule_history
     return [S(rule_unset, ctx), S(rule_freeze, ctx), S(rule_flag, ctx), r, v,
+            S(rule_self, ctx),
             S(rule_nomut, ctx, 'C08', 'C08.nomut'),
             S(rule_history, ctx, 'C08', 'C08.history')]
